@@ -409,7 +409,9 @@ func (cr *CrashRun) hasTruncatedData(m *Model) bool {
 // truncated away in this state): they must read as zeros, not as the old data.
 func probeResurrected(x *Exec, ever map[int]map[uint64]bool) error {
 	probed := 0
-	for _, f := range x.M.LiveKind(nt.NF3REG) {
+	files := x.M.LiveKind(nt.NF3REG)
+	for i := len(files) - 1; i >= 0; i-- { // newest first: the directed tail of the crash programs is the last file made
+		f := files[i]
 		var bs []uint64
 		for b := range ever[f.ID] {
 			if b*BlockSize >= f.Size {
@@ -432,7 +434,9 @@ func probeResurrected(x *Exec, ever map[int]map[uint64]bool) error {
 			if f.Size > 100 {
 				off = f.Size - 100
 			}
-			if err := x.Write(LiveRef(f), off, patternData(0xabc0+uint32(probed), 150), 150, nt.FILE_SYNC); err != nil {
+			// ... and it ends in the middle of the block after the one that holds the end of the file
+			n := uint32((f.Size+BlockSize-1)/BlockSize*BlockSize + 2000 - off)
+			if err := x.Write(LiveRef(f), off, patternData(0xabc0+uint32(probed), uint64(n)), n, nt.FILE_SYNC); err != nil {
 				return err
 			}
 		}
